@@ -9,6 +9,7 @@ package c07
 import (
 	"archive/tar"
 	"bytes"
+	"compress/gzip"
 	"fmt"
 	"os"
 	"path/filepath"
@@ -26,11 +27,14 @@ const (
 	mtDockerLayerGz = "application/vnd.docker.image.rootfs.diff.tar.gzip"
 	mtEmpty         = "application/vnd.oci.empty.v1+json"
 	mtPayload       = "application/vnd.verif.payload"
+	mtDockerList    = "application/vnd.docker.distribution.manifest.list.v2+json"
+	mtOCIArtifact   = "application/vnd.oci.artifact.manifest.v1+json"
 
-	nBlobs     = 8
-	nImages    = 6
-	nIndexes   = 4
-	nArtifacts = 4
+	// the first 8/6/4/4 objects are the original universe (committed replays name them)
+	nBlobs     = 12
+	nImages    = 8
+	nIndexes   = 7
+	nArtifacts = 7
 )
 
 // Obj names one object of the universe.
@@ -70,18 +74,28 @@ func norm(o Obj) Obj {
 
 func isManifestObj(o Obj) bool { return o.T == "image" || o.T == "index" || o.T == "artifact" }
 
-var blobSizes = [nBlobs]int{0, 16, 300, 5000, 33000, 70000, 64, 2000}
+// sizes: empty, tiny, around io.Copy's 32 KiB buffer (one byte less is 8: 1 byte; 9..11: exactly one
+// buffer, one byte more, exactly two buffers), multi-write; blob 6 is sha512-addressed
+var blobSizes = [nBlobs]int{0, 16, 300, 5000, 33000, 70000, 64, 2000, 1, 32768, 32769, 65536}
 
-var imageLayers = [nImages][]int{{1}, {2, 3}, {1, 4}, {0, 5}, {6, 7}, {7, 1}}
+// image 5 is a Docker schema2 image, image 6 lists the same layer twice (and a layer of exactly one
+// copy buffer), image 7 is addressed by a sha512 digest (its manifest lives under blobs/sha512)
+var imageLayers = [nImages][]int{{1}, {2, 3}, {1, 4}, {0, 5}, {6, 7}, {7, 1}, {1, 9, 1}, {6, 8}}
 
 var indexKids = [nIndexes][]Obj{
 	{{"image", 0}, {"image", 1}},
 	{{"image", 2}},
 	{{"image", 0}, {"image", 3}},
 	{{"index", 1}, {"image", 4}},
+	{{"image", 5}, {"image", 0}}, // 4: Docker manifest list
+	{{"image", 1}, {"image", 1}}, // 5: the same child twice
+	{{"image", 7}, {"image", 0}}, // 6: a sha512-addressed child
 }
 
-var artifactSubject = [nArtifacts]Obj{{"image", 0}, {"image", 0}, {"index", 0}, {"artifact", 0}}
+// artifact 4 is of the (deprecated, still supported) OCI artifact manifest type, artifact 5 is an
+// INDEX with a subject (its child is image 1), artifact 6 refers to the sha512-addressed image 7
+var artifactSubject = [nArtifacts]Obj{{"image", 0}, {"image", 0}, {"index", 0}, {"artifact", 0},
+	{"image", 1}, {"image", 0}, {"image", 7}}
 
 func pattern(tag string, size int) []byte {
 	var b bytes.Buffer
@@ -98,7 +112,7 @@ type leaf struct {
 }
 
 func algOf(o Obj) string {
-	if o.T == "blob" && o.N == 6 {
+	if (o.T == "blob" && o.N == 6) || (o.T == "image" && o.N == 7) {
 		return "sha512"
 	}
 	return "sha256"
@@ -153,8 +167,17 @@ func objMediaType(o Obj) string {
 		}
 		return mtOCIManifest
 	case "index":
+		if o.N == 4 {
+			return mtDockerList
+		}
 		return mtOCIIndex
 	case "artifact":
+		switch o.N {
+		case 4:
+			return mtOCIArtifact
+		case 5:
+			return mtOCIIndex
+		}
 		return mtOCIManifest
 	}
 	return ""
@@ -196,11 +219,22 @@ func indexManifest(x int) []byte {
 	for i, k := range indexKids[x] {
 		kids = append(kids, descJSON(k, "", fmt.Sprintf(`,"platform":{"architecture":%q,"os":"linux"}`, archs[i%len(archs)])))
 	}
+	if x == 4 {
+		return []byte(fmt.Sprintf(`{"schemaVersion":2,"mediaType":%q,"manifests":[%s]}`, mtDockerList, strings.Join(kids, ",")))
+	}
 	return []byte(fmt.Sprintf(`{"schemaVersion":2,"mediaType":%q,"manifests":[%s],"annotations":{"verif.index":"%d"}}`,
 		mtOCIIndex, strings.Join(kids, ","), x))
 }
 
 func artifactManifest(a int) []byte {
+	switch a {
+	case 4:
+		return []byte(fmt.Sprintf(`{"mediaType":%q,"artifactType":"application/vnd.verif.a%d","blobs":[%s],"subject":%s,"annotations":{"verif.artifact":"%d"}}`,
+			mtOCIArtifact, a, descJSON(Obj{"payload", a}, "", ""), descJSON(artifactSubject[a], "", ""), a))
+	case 5:
+		return []byte(fmt.Sprintf(`{"schemaVersion":2,"mediaType":%q,"artifactType":"application/vnd.verif.a%d","manifests":[%s],"subject":%s,"annotations":{"verif.artifact":"%d"}}`,
+			mtOCIIndex, a, descJSON(Obj{"image", 1}, "", `,"platform":{"architecture":"amd64","os":"linux"}`), descJSON(artifactSubject[a], "", ""), a))
+	}
 	return []byte(fmt.Sprintf(`{"schemaVersion":2,"mediaType":%q,"artifactType":"application/vnd.verif.a%d","config":%s,"layers":[%s],"subject":%s,"annotations":{"verif.artifact":"%d"}}`,
 		mtOCIManifest, a, descJSON(Obj{"empty", 0}, "", ""), descJSON(Obj{"payload", a}, "", ""),
 		descJSON(artifactSubject[a], "", ""), a))
@@ -218,7 +252,14 @@ func parts(o Obj) (leaves []Obj, kids []Obj) {
 	case "index":
 		kids = append(kids, indexKids[o.N]...)
 	case "artifact":
-		leaves = append(leaves, Obj{"empty", 0}, Obj{"payload", o.N})
+		switch o.N {
+		case 4:
+			leaves = append(leaves, Obj{"payload", o.N})
+		case 5:
+			kids = append(kids, Obj{"image", 1})
+		default:
+			leaves = append(leaves, Obj{"empty", 0}, Obj{"payload", o.N})
+		}
 	}
 	return
 }
@@ -253,6 +294,14 @@ type DrvOp struct {
 	Referrers  bool   `json:"referrers,omitempty"`
 	DigestTags bool   `json:"digest_tags,omitempty"`
 	Tar        string `json:"tar,omitempty"`
+	RefForm    string `json:"ref_form,omitempty"`  // "" | tag+digest | bare | digest
+	DescMode   string `json:"desc_mode,omitempty"` // blob: "" | none | digest-only | size-only | wrong-digest | wrong-size
+	Ctx        string `json:"ctx,omitempty"`       // "" | cancelled
+	Force      bool   `json:"force,omitempty"`     // copy: ImageWithForceRecursive
+	Fast       bool   `json:"fast,omitempty"`      // copy: ImageWithFastCheck
+	Platform   string `json:"platform,omitempty"`  // copy: ImageWithPlatforms
+	ImportName string `json:"import_name,omitempty"`
+	CheckRefs  bool   `json:"check_refs,omitempty"` // mandel: WithManifestCheckReferrers
 	what       string
 }
 
@@ -293,8 +342,10 @@ func prereqOps(o Obj, seen map[string]bool) []DrvOp {
 // ---------------------------------------------------------------- raw writers
 
 type rawEntry struct {
-	Tag string
-	Obj Obj
+	Tag  string
+	Name string // raw ref.name annotation when it is not just the tag (full image name)
+	Ctrd string // io.containerd.image.name annotation
+	Obj  Obj
 	// for entries that are not universe objects (referrer lists)
 	Raw []byte
 	MT  string
@@ -324,8 +375,15 @@ func indexJSON(entries []rawEntry) []byte {
 			dg, mt, size = objDigest(e.Obj), m, len(b)
 		}
 		ann := ""
-		if e.Tag != "" {
-			ann = fmt.Sprintf(`,"annotations":{%q:%q}`, refNameAnnot, e.Tag)
+		name := e.Tag
+		if e.Name != "" {
+			name = e.Name
+		}
+		switch {
+		case e.Ctrd != "" && name != "":
+			ann = fmt.Sprintf(`,"annotations":{"io.containerd.image.name":%q,%q:%q}`, e.Ctrd, refNameAnnot, name)
+		case name != "":
+			ann = fmt.Sprintf(`,"annotations":{%q:%q}`, refNameAnnot, name)
 		}
 		ents = append(ents, fmt.Sprintf(`{"mediaType":%q,"digest":%q,"size":%d%s}`, mt, dg, size, ann))
 	}
@@ -376,7 +434,15 @@ func referrersIndex(arts []Obj) []byte {
 	return []byte(fmt.Sprintf(`{"schemaVersion":2,"mediaType":%q,"manifests":[%s]}`, mtOCIIndex, strings.Join(ents, ",")))
 }
 
-func fallbackTag(d string) string { return strings.Replace(d, ":", "-", 1) }
+// fallbackTag is the referrers fallback tag of a subject digest: "<alg>-<first 64 hex characters>".
+func fallbackTag(d string) string {
+	i := strings.IndexByte(d, ':')
+	h := d[i+1:]
+	if len(h) > 64 {
+		h = h[:64]
+	}
+	return d[:i] + "-" + h
+}
 
 // sourceTags lists the tags of the copy source layout.
 func sourceTags() []string {
@@ -427,32 +493,139 @@ func writeSourceLayout(dir string) error {
 	return writeRawLayout(dir, ents, extra)
 }
 
-// writeLayoutTar writes an OCI-layout tar holding one tagged object.
-func writeLayoutTar(path string, o Obj, tag string) error {
-	ents := []rawEntry{{Tag: tag, Obj: o}}
-	files := layoutFiles(ents)
+// writeLayoutTar writes a tar holding one tagged object.
+// style: "" (oci-layout, index.json, blobs in name order), "reversed" (blobs in
+// descending order first, control files last: the importer needs several passes),
+// "gzip" (the whole archive gzip-compressed), "multi" (index.json lists a second
+// image under the tag "other" first: the importer selects by name), "docker"
+// (docker-save form of an image: manifest.json + config + layer files, no OCI files).
+func writeLayoutTar(path string, o Obj, tag string, style string) error {
+	o = norm(o)
+	type ent struct {
+		name string
+		b    []byte
+	}
+	var list []ent
+	if style == "docker" {
+		if o.T != "image" {
+			o = Obj{"image", mod(o.N, nImages)}
+		}
+		cfg, _ := objRaw(Obj{"config", o.N})
+		var layers []string
+		list = append(list, ent{"config.json", cfg})
+		for i, l := range imageLayers[o.N] {
+			lb, _ := objRaw(Obj{"blob", l})
+			name := fmt.Sprintf("layer%d/layer.tar", i)
+			// a layer listed twice shares its file, as docker save does
+			for j := 0; j < i; j++ {
+				if imageLayers[o.N][j] == l {
+					name = fmt.Sprintf("layer%d/layer.tar", j)
+				}
+			}
+			if name == fmt.Sprintf("layer%d/layer.tar", i) {
+				list = append(list, ent{name, lb})
+			}
+			layers = append(layers, fmt.Sprintf("%q", name))
+		}
+		list = append(list, ent{"manifest.json", []byte(fmt.Sprintf(`[{"Config":"config.json","RepoTags":["verif.example/app:%s"],"Layers":[%s]}]`,
+			tag, strings.Join(layers, ",")))})
+	} else {
+		ents := []rawEntry{{Tag: tag, Obj: o}}
+		if style == "multi" {
+			other := Obj{"image", mod(o.N+3, nImages)}
+			ents = []rawEntry{{Tag: "other", Obj: other}, {Tag: tag, Obj: o}}
+		}
+		files := layoutFiles(ents)
+		list = append(list, ent{"oci-layout", []byte(`{"imageLayoutVersion":"1.0.0"}`)}, ent{"index.json", indexJSON(ents)})
+		for _, d := range sortedKeys(files) {
+			list = append(list, ent{filepath.ToSlash(blobPath(d)), files[d]})
+		}
+		if style == "reversed" {
+			for i, j := 0, len(list)-1; i < j; i, j = i+1, j-1 {
+				list[i], list[j] = list[j], list[i]
+			}
+		}
+	}
 	var buf bytes.Buffer
 	tw := tar.NewWriter(&buf)
-	add := func(name string, b []byte) error {
-		if err := tw.WriteHeader(&tar.Header{Name: name, Mode: 0o644, Size: int64(len(b)), Typeflag: tar.TypeReg}); err != nil {
+	for _, e := range list {
+		if err := tw.WriteHeader(&tar.Header{Name: e.name, Mode: 0o644, Size: int64(len(e.b)), Typeflag: tar.TypeReg}); err != nil {
 			return err
 		}
-		_, err := tw.Write(b)
-		return err
-	}
-	if err := add("oci-layout", []byte(`{"imageLayoutVersion":"1.0.0"}`)); err != nil {
-		return err
-	}
-	if err := add("index.json", indexJSON(ents)); err != nil {
-		return err
-	}
-	for _, d := range sortedKeys(files) {
-		if err := add(filepath.ToSlash(blobPath(d)), files[d]); err != nil {
+		if _, err := tw.Write(e.b); err != nil {
 			return err
 		}
 	}
 	if err := tw.Close(); err != nil {
 		return err
 	}
-	return os.WriteFile(path, buf.Bytes(), 0o644)
+	out := buf.Bytes()
+	if style == "gzip" {
+		var gz bytes.Buffer
+		zw := gzip.NewWriter(&gz)
+		if _, err := zw.Write(out); err != nil {
+			return err
+		}
+		if err := zw.Close(); err != nil {
+			return err
+		}
+		out = gz.Bytes()
+	}
+	return os.WriteFile(path, out, 0o644)
+}
+
+// ---------------------------------------------------------------- seed layouts
+
+// seedStyles are the layouts "another tool" may have left before the first operation.
+var seedStyles = []string{"plain", "fullname", "containerd", "dup", "untagged-all", "leftovers"}
+
+const seedRepo = "registry.example.test/team/app"
+
+// writeSeedLayout materialises a spec-conformant layout in the style of another tool
+// (plain file writes). Tags v1 -> image0 and v2 -> index0 exist in every style.
+func writeSeedLayout(dir, style string) error {
+	var ents []rawEntry
+	extra := map[string][]byte{}
+	marker := `{"imageLayoutVersion":"1.0.0"}`
+	switch style {
+	case "fullname": // full image name in ref.name (podman / skopeo / buildx style)
+		ents = []rawEntry{{Tag: "v1", Name: seedRepo + ":v1", Obj: Obj{"image", 0}}, {Tag: "v2", Name: seedRepo + ":v2", Obj: Obj{"index", 0}}}
+	case "containerd": // ctr image export: both annotations
+		ents = []rawEntry{{Tag: "v1", Ctrd: seedRepo + ":v1", Obj: Obj{"image", 0}}, {Tag: "v2", Ctrd: seedRepo + ":v2", Obj: Obj{"index", 0}}}
+	case "dup": // the same ref.name twice (append-only writers), an untagged entry
+		ents = []rawEntry{{Tag: "v1", Obj: Obj{"image", 0}}, {Tag: "v1", Obj: Obj{"image", 1}}, {Obj: Obj{"image", 2}}, {Tag: "v2", Obj: Obj{"index", 0}}}
+	case "untagged-all": // every manifest, children included, has its own entry
+		ents = []rawEntry{{Tag: "v1", Obj: Obj{"image", 0}}, {Tag: "v2", Obj: Obj{"index", 0}}, {Obj: Obj{"image", 0}}, {Obj: Obj{"image", 1}}, {Obj: Obj{"image", 2}}}
+	default:
+		ents = []rawEntry{{Tag: "v1", Obj: Obj{"image", 0}}, {Tag: "v2", Obj: Obj{"index", 0}}}
+	}
+	if err := writeRawLayout(dir, ents, extra); err != nil {
+		return err
+	}
+	if style == "leftovers" {
+		// marker and index in another tool's spelling, stale temp files, an unreferenced blob,
+		// an empty algorithm directory
+		marker = "{\n  \"imageLayoutVersion\": \"1.0.0\"\n}\n"
+		ix := fmt.Sprintf("{\n  \"schemaVersion\": 2,\n  \"manifests\": [\n    %s,\n    %s\n  ],\n  \"annotations\": {\"verif.seed\": \"leftovers\"}\n}\n",
+			descJSON(Obj{"image", 0}, "", fmt.Sprintf(`,"annotations":{%q:"v1"}`, refNameAnnot)),
+			descJSON(Obj{"index", 0}, "", fmt.Sprintf(`,"annotations":{%q:"v2"}`, refNameAnnot)))
+		garbage, _ := objRaw(Obj{"blob", 7})
+		for name, b := range map[string][]byte{
+			"oci-layout":            []byte(marker),
+			"index.json":            []byte(ix),
+			"index.json.4242.tmp":   []byte(`{"schemaVersion":2,"manifests":[`),
+			"oci-layout.4242.tmp":   {},
+			"blobs/sha256/4242.tmp": []byte("partial"),
+			"blobs/sha256/" + strings.Repeat("ab", 32) + ".4242.tmp": []byte("{"),
+			blobPath(objDigest(Obj{"blob", 7})):                      garbage,
+		} {
+			if err := writeFile(filepath.Join(dir, name), b); err != nil {
+				return err
+			}
+		}
+		if err := os.MkdirAll(filepath.Join(dir, "blobs", "sha512"), 0o777); err != nil {
+			return err
+		}
+	}
+	return nil
 }
